@@ -12,7 +12,7 @@ class Ctx:
     def __init__(self, pid, tier):
         self.pid = pid
         self.tier = tier
-        self.work = os.path.join(VERIF, ".work", "%s-%s" % (pid, tier))
+        self.work = os.path.join(VERIF, ".work", "%s-%s%s" % (pid, tier, os.environ.get("PLV_WORK_TAG", "")))
         lib, others, dt = extract_repo(self.work, all_targets=False)
         self.db = DB(lib)
         self.extract_s = dt
